@@ -9,7 +9,7 @@ use jsonrpsee_server::BatchRequestConfig;
 use serde_json::json;
 
 /// entry alphabet (text of one batch entry)
-const ENTRIES: [&str; 14] = [
+const ENTRIES: [&str; 15] = [
 	r#"{"jsonrpc":"2.0","id":1,"method":"add","params":[1,2]}"#,
 	r#"{"jsonrpc":"2.0","method":"sync_echo","params":[1]}"#,
 	r#"{"jsonrpc":"2.0","id":1,"method":"sync_echo","params":["again"]}"#,
@@ -22,6 +22,8 @@ const ENTRIES: [&str; 14] = [
 	r#"{"jsonrpc":"2.0","id":7,"method":"async_echo","params":{"k":1}}"#,
 	r#"["2.0",8,"sync_echo",[1]]"#,
 	r#"{"jsonrpc":"2.0","id":9,"method":"fail"}"#,
+	// a handler that answers from the request extensions (connection id)
+	r#"{"jsonrpc":"2.0","id":11,"method":"whoami"}"#,
 	// array-encoded notification (serde would read a struct from a sequence): not an object, hence an invalid entry
 	r#"["2.0","sync_echo",[1]]"#,
 	r#"{"jsonrpc":"2.0","id":10,"method":"sub","params":[2]}"#,
@@ -36,7 +38,7 @@ pub fn check(rep: &Reporter) {
 	// the subscribe entry is explored in a second sweep (it is the only entry kind with a known finding) to keep the first complete
 	let n_main = ENTRIES.len() - 1;
 	rep.set_rule(&format!(
-		"all arrays of length 0..{maxlen} over 13 entry kinds (valid calls incl. a repeated id, notification, unknown method, bad params, invalid objects with/without id, non-object, array-encoded request and array-encoded notification, unsubscribe call, async call, custom error) and all arrays of length ≤3 that contain a subscribe call, × batch config {{Unlimited, Disabled, Limit(0), Limit(1), Limit(2)}} × {{HTTP, WS}}; plus all arrays of length ≤2 × every config through Server::start over loopback TCP; plus structurally mutated batch texts; plus, for every entry kind, the entry alone vs. inside a batch (differential). Every frame of the WebSocket connection until close is collected, so a reply outside the array is observable. Distinct by (array text, config)."
+		"all arrays of length 0..{maxlen} over 14 entry kinds (valid calls incl. a repeated id and one whose handler reads the request extensions, notification, unknown method, bad params, invalid objects with/without id, non-object, array-encoded request and array-encoded notification, unsubscribe call, async call, custom error) and all arrays of length ≤3 that contain a subscribe call, × batch config {{Unlimited, Disabled, Limit(0), Limit(1), Limit(2)}} × {{HTTP, WS}}; plus all arrays of length ≤2 × every config through Server::start over loopback TCP; plus structurally mutated batch texts; plus, for every entry kind, the entry alone vs. inside a batch (differential). Every frame of the WebSocket connection until close is collected, so a reply outside the array is observable. Distinct by (array text, config)."
 	));
 	rep.assume("batch entry order in the reply is not demanded (multiset comparison), as JSON-RPC allows any order");
 	let n = seq_count(n_main, maxlen);
